@@ -2,38 +2,52 @@ package main
 
 import (
 	"fmt"
-	"math/rand"
 	"os"
 
 	"github.com/tsawler/tabula"
+	"github.com/tsawler/tabula/model"
 
-	"verifharness/fw"
 	"verifharness/gen/pdfw"
 )
 
 func main() {
-	r := rand.New(rand.NewSource(3))
-	tk := fw.NewTokens(r)
-	var pages []pdfw.SimplePage
-	for p := 0; p < 3; p++ {
-		pg := pdfw.SimplePage{W: 612, H: 792}
-		pg.Items = append(pg.Items, pdfw.SimpleItem{X: 72, Y: 720, Size: 24, Text: "Chapter " + tk.Next(), Bold: true})
-		y := 680.0
-		for l := 0; l < 4; l++ {
-			pg.Items = append(pg.Items, pdfw.SimpleItem{X: 72, Y: y, Size: 11, Text: tk.Next() + " plain body text of the page goes on here."})
-			y -= 15
-		}
-		pages = append(pages, pg)
+	pg := pdfw.SimplePage{W: 612, H: 792}
+	y := 720.0
+	add := func(size float64, x float64, t string) {
+		pg.Items = append(pg.Items, pdfw.SimpleItem{X: x, Y: y, Size: size, Text: t})
+		y -= size + 6
 	}
-	os.WriteFile("/dev/shm/h.pdf", pdfw.SimplePDF(pages), 0o644)
-	show := func(name string, e *tabula.Extractor) {
-		cc, _, err := e.Chunks()
-		fmt.Println("==", name, err)
-		for _, ch := range cc.Chunks {
-			fmt.Printf("  p%d-%d title=%q path=%q types=%v lvl=%d text=%q\n", ch.Metadata.PageStart, ch.Metadata.PageEnd, ch.Metadata.SectionTitle, ch.Metadata.SectionPath, ch.Metadata.ElementTypes, ch.Metadata.HeadingLevel, ch.Text)
+	add(20, 72, "Chapter qaaazaaaa")
+	add(11, 72, "Intro paragraph qaaazaaab goes here and continues for a while.")
+	add(11, 72, "Second line of intro qaaazaaac.")
+	y -= 10
+	add(11, 90, "- first item qaaazaaad")
+	add(11, 90, "- second item qaaazaaae")
+	add(11, 90, "- third item qaaazaaaf")
+	y -= 10
+	add(11, 72, "Closing paragraph qaaazaaag after the list.")
+	add(11, 72, "1. numbered one qaaazaaah")
+	add(11, 72, "2. numbered two qaaazaaai")
+	add(11, 72, "Tail text right after qaaazaaaj.")
+	os.WriteFile("/dev/shm/l.pdf", pdfw.SimplePDF([]pdfw.SimplePage{pg}), 0o644)
+	doc, _, err := tabula.Open("/dev/shm/l.pdf").Document()
+	fmt.Println(err)
+	for _, e := range doc.Pages[0].Elements {
+		switch v := e.(type) {
+		case *model.Heading:
+			fmt.Printf("HEADING %q\n", v.Text)
+		case *model.Paragraph:
+			fmt.Printf("PARA    %q\n", v.Text)
+		case *model.List:
+			fmt.Printf("LIST    ")
+			for _, it := range v.Items {
+				fmt.Printf("[%q %q] ", it.Bullet, it.Text)
+			}
+			fmt.Println()
 		}
 	}
-	show("whole", tabula.Open("/dev/shm/h.pdf"))
-	show("Pages(2)", tabula.Open("/dev/shm/h.pdf").Pages(2))
-	show("Pages(1)", tabula.Open("/dev/shm/h.pdf").Pages(1))
+	fmt.Println("layout paragraphs:")
+	for _, p := range doc.Pages[0].Layout.Paragraphs {
+		fmt.Printf("   %q\n", p.Text)
+	}
 }
